@@ -44,6 +44,15 @@ def load_known(pid):
 def run_replay(binary, path, env=None, timeout=600):
     """returns (status, text): status in pass|fail|known|crash|timeout|discard"""
     try:
+        with open(path) as f:
+            meta = json.load(f)
+    except Exception:
+        meta = {}
+    if "fuzz_input_hex" in meta:     # a raw libFuzzer input wrapped in JSON
+        from fuzz import run_fuzz_input
+        st, rep, cpu = run_fuzz_input(binary, bytes.fromhex(meta["fuzz_input_hex"]), env, min(timeout, 90))
+        return st, rep
+    try:
         r = subprocess.run([binary, "--replay", path], stdout=subprocess.PIPE, stderr=subprocess.STDOUT,
                            text=True, timeout=timeout, env=env)
     except subprocess.TimeoutExpired:
@@ -80,6 +89,9 @@ class Runner:
         self.out_root = os.environ.get("VERIF_OUT", VERIF)   # self-test runs redirect evidence/found elsewhere
         self.found_dir = os.path.join(self.out_root, "found", pid)
         self.env = sanitizer_env()
+        extra = self.cfg.get("env", {}).get("ASAN_OPTIONS_EXTRA")
+        if extra:   # options for the rapidcheck binaries of this property (fuzz.py sets its own)
+            self.env["ASAN_OPTIONS"] += ":" + extra
 
     # -- build -------------------------------------------------------------
     def build_all(self):
@@ -343,7 +355,7 @@ def main():
         with open(path) as f:
             meta = json.load(f)
         binary = r.bins.get(meta.get("bin", ""), next(iter(r.bins.values())))
-        st, out = run_replay(binary, path, r.env)
+        st, out = run_replay(binary, path, r.env, 120)
         print(out.strip())
         shutil.rmtree(r.work, ignore_errors=True)
         if st in ("fail", "crash"):
